@@ -279,6 +279,8 @@ def shard_real(col, phase, crashes, budget_kind):
     col.distinct("states", ("real", phase, crashes, budget_kind, obs["rc"], obs["tests_written"]))
     data = {"leg": "real", "phase": phase, "crashes": crashes, "budget": budget_kind}
     fp_base = f"C33|real|{phase}x{crashes}|{budget_kind}"
+    if obs["crashes_happened"] >= 2:
+        col.count("real_runs_with_two_crashes")      # counted before any verdict: a hang after the second crash
     if obs["hung"]:
         col.violation(f"{fp_base}|hang", f"CLI did not return within {cap}s: {obs['tail']}", data)
         return
@@ -286,8 +288,6 @@ def shard_real(col, phase, crashes, budget_kind):
         col.violation(f"{fp_base}|harness:crash-point-not-reached", f"{obs}", data)
         return
     col.distinct("real_crash_counts", (phase, budget_kind, obs["crashes_happened"]))
-    if obs["crashes_happened"] >= 2:
-        col.count("real_runs_with_two_crashes")
     if budget_kind == "iterations" and obs["crashes_happened"] > 1:
         col.violation(f"{fp_base}|restart-without-search-time",
                       f"worker was restarted although no search time is configured: {obs}", data)
